@@ -74,6 +74,8 @@ def cases(chk, env):
                 s["out"] = 70000
         out.append(sp)
         n += 1
+    for k in range(12 if tier == "quick" else 120):
+        out.append(S.two_run_spec(rng, label="tworun"))
     if tier == "thorough":
         # output volumes on either stream, 10 jitter seeds
         for vol in (1000, 70000, 200000):
@@ -102,7 +104,7 @@ def run(chk, replay=None):
         chk.proof()
         S.probe_p13(env)
         specs = [replay["input"]] if replay else cases(chk, env)
-        stats, rrs, infos = S.drive(chk, env, "C11", specs, nontrivial, max_reports=6)
+        stats, rrs, infos, specs = S.drive(chk, env, "C11", specs, nontrivial, max_reports=6)
         chk.cov["distribution"] = stats
         chk.cov["p13_repaired_in_tree"] = env.p13_fixed
         for sp in specs[:2] + specs[-2:]:
